@@ -21,16 +21,22 @@ import (
 	"sync"
 
 	"k8s.io/apimachinery/pkg/apis/meta/v1/unstructured"
+	kruntime "k8s.io/apimachinery/pkg/runtime"
 	"k8s.io/apimachinery/pkg/runtime/schema"
 	"k8s.io/apimachinery/pkg/types"
+	"k8s.io/client-go/util/workqueue"
+	"sigs.k8s.io/controller-runtime/pkg/client"
+	"sigs.k8s.io/controller-runtime/pkg/event"
 	"sigs.k8s.io/controller-runtime/pkg/reconcile"
 
+	"github.com/crossplane/crossplane-runtime/pkg/logging"
 	"github.com/crossplane/crossplane-runtime/pkg/resource"
 	ucomposite "github.com/crossplane/crossplane-runtime/pkg/resource/unstructured/composite"
 
 	v1 "github.com/crossplane/crossplane/apis/apiextensions/v1"
 	"github.com/crossplane/crossplane/internal/controller/apiextensions/composite"
 	"github.com/crossplane/crossplane/internal/controller/apiextensions/composition"
+	"github.com/crossplane/crossplane/internal/controller/apiextensions/definition"
 	"github.com/crossplane/crossplane/verifh/kit"
 	"github.com/crossplane/crossplane/verifh/sim"
 	"github.com/crossplane/crossplane/verifh/xrk"
@@ -52,6 +58,9 @@ var xrs = []xrSpec{
 	{Name: "xr-auto", Policy: "Automatic"},
 	{Name: "xr-auto-stable", Policy: "Automatic", Selector: map[string]string{"channel": "stable"}},
 	{Name: "xr-auto-beta", Policy: "Automatic", Selector: map[string]string{"channel": "beta"}},
+	// no update policy set (no XRD default either): follows the latest revision like Automatic; the
+	// fetcher honours a revision selector only under an explicit Automatic policy
+	{Name: "xr-unset-with-selector", Policy: "", Selector: map[string]string{"channel": "stable"}},
 }
 
 // pending is one violation found in a history; the first witness per key and history is kept
@@ -88,6 +97,7 @@ type exec struct {
 	errors     int
 	requeues   int
 	switchN    int // position in the rotation of user edits of xr-switch
+	seenRevs   map[string]bool
 }
 
 // xr-switch is an XR whose update policy and revision selector the user edits between the
@@ -119,6 +129,10 @@ func (e *exec) fork() *exec {
 	n := newExec(e.c, e.coll, e.h, e.w.Clone(), e.m.clone())
 	n.trace = append(n.trace, e.trace...)
 	n.switchN = e.switchN
+	n.seenRevs = map[string]bool{}
+	for k := range e.seenRevs {
+		n.seenRevs[k] = true
+	}
 	return n
 }
 
@@ -137,6 +151,9 @@ func buildWorld(h *history, seed uint64) *sim.World {
 		"spec": with(specPool()[1], "revision", int64(50))})
 	for _, x := range append(append([]xrSpec{}, xrs...), xrSpec{Name: xrSwitch, Policy: "Automatic"}) {
 		spec := map[string]any{"compositionRef": map[string]any{"name": compName}, "compositionUpdatePolicy": x.Policy}
+		if x.Policy == "" {
+			delete(spec, "compositionUpdatePolicy")
+		}
 		if x.Selector != nil {
 			ml := map[string]any{}
 			for k, v := range x.Selector {
@@ -255,6 +272,29 @@ func (e *exec) apply(si int) {
 			must(e.user.Delete(ctx, &unstructured.Unstructured{Object: o}), "delete foreign revision")
 		}
 		e.logf("step %d: the foreign revision is garbage collected", si)
+	case "delete-highest":
+		var top map[string]any
+		for _, o := range e.ownRevisions() {
+			if !sim.Terminating(o) && (top == nil || revNum(o) > revNum(top)) {
+				top = o
+			}
+		}
+		if top != nil {
+			u := &unstructured.Unstructured{Object: top}
+			u.SetFinalizers(append(u.GetFinalizers(), "example.org/hold"))
+			must(e.user.Update(ctx, u), "put a finalizer on the highest revision")
+			must(e.user.Delete(ctx, u), "delete the highest revision")
+			e.logf("step %d: the highest-numbered revision %s (rev=%d) is deleted but held by a finalizer", si, u.GetName(), revNum(top))
+		}
+	case "release":
+		for _, o := range e.ownRevisions() {
+			if sim.Terminating(o) {
+				u := &unstructured.Unstructured{Object: o}
+				u.SetFinalizers(nil)
+				must(e.user.Update(ctx, u), "release a terminating revision")
+			}
+		}
+		e.logf("step %d: terminating revisions are released", si)
 	default:
 		panic("unknown op " + s.Op)
 	}
@@ -424,7 +464,11 @@ func (e *exec) fetch(x xrSpec, k int, out sim.Outcome, label string) (calls int)
 	xr := ucomposite.New(ucomposite.WithGroupVersionKind(v1GVK()))
 	xr.SetUnstructuredContent(w.GetObj(xrKey(x.Name)))
 	before := xrRef(w, x.Name)
-	want, max, cands := expectedLatest(w, x.Selector)
+	effSel := x.Selector
+	if x.Policy == "" {
+		effSel = nil
+	}
+	want, max, cands := expectedLatest(w, effSel)
 	var rev *v1.CompositionRevision
 	var err error
 	var crashed bool
@@ -487,6 +531,7 @@ func (e *exec) fetch(x xrSpec, k int, out sim.Outcome, label string) (calls int)
 // xrPoint runs every XR's fetch on the current store. With enumerate, every call index of
 // each fetch is first faulted with the six outcomes on a copy of the world.
 func (e *exec) xrPoint(label string, enumerate bool) {
+	e.enqueuePoint(label)
 	for _, x := range xrs {
 		if enumerate {
 			probe := e.fork()
@@ -534,6 +579,61 @@ func (e *exec) xrPoint(label string, enumerate bool) {
 		e.c.Count("xr_switch_edits", 1)
 		e.fetch(combo, 0, sim.OK, label+" after the user set policy/selector of xr-switch")
 		e.fetch(combo, 0, sim.OK, label+" second fetch of xr-switch")
+	}
+}
+
+// enqueuePoint delivers the create event of every revision that appeared since the last XR point
+// to the REAL handler the XR controller watches revisions with, and holds it against the real
+// fetcher: an XR whose fetch (on a copy of the cluster) would move its reference now must have
+// been enqueued for at least one of those events - otherwise it never learns of the revision.
+func (e *exec) enqueuePoint(label string) {
+	if e.seenRevs == nil {
+		e.seenRevs = map[string]bool{}
+	}
+	var fresh []map[string]any
+	for _, o := range e.w.ListObjs(revGK) {
+		n := sim.Str(o, "metadata", "name")
+		if !e.seenRevs[n] {
+			e.seenRevs[n] = true
+			fresh = append(fresh, o)
+		}
+	}
+	if len(fresh) == 0 {
+		return
+	}
+	q := workqueue.NewTypedRateLimitingQueue(workqueue.DefaultTypedControllerRateLimiter[reconcile.Request]())
+	defer q.ShutDown()
+	h := definition.EnqueueForCompositionRevision(resource.CompositeKind(v1GVK()), e.w.Client("xr-watch"), logging.NewNopLogger())
+	for _, o := range fresh {
+		rev := &v1.CompositionRevision{}
+		if err := kruntime.DefaultUnstructuredConverter.FromUnstructured(o, rev); err != nil {
+			panic(err)
+		}
+		h.Create(ctx, event.TypedCreateEvent[client.Object]{Object: rev}, q)
+	}
+	enq := map[string]bool{}
+	for q.Len() > 0 {
+		it, _ := q.Get()
+		enq[it.Name] = true
+		q.Done(it)
+	}
+	e.c.Count("xr_enqueue_points", 1)
+	for _, x := range xrs {
+		if x.Policy == "Manual" {
+			continue
+		}
+		f := e.fork()
+		before := xrRef(f.w, x.Name)
+		xc := f.w.Client("xr")
+		ft := composite.NewAPIRevisionFetcher(resource.ClientApplicator{Client: xc, Applicator: resource.NewAPIPatchingApplicator(xc)})
+		xr := ucomposite.New(ucomposite.WithGroupVersionKind(v1GVK()))
+		xr.SetUnstructuredContent(f.w.GetObj(xrKey(x.Name)))
+		_ = kit.Try(func() { _, _ = ft.Fetch(ctx, xr) })
+		after := xrRef(f.w, x.Name)
+		if after != before && !enq[x.Name] {
+			e.m.add("O5-xr-not-enqueued-for-new-revision", fmt.Sprintf("%s: revisions %d appeared; a fetch would move XR %s (policy %q selector %v) from %q to %q, but the revision watch handler did not enqueue it (enqueued: %v)",
+				label, len(fresh), x.Name, x.Policy, x.Selector, before, after, enq))
+		}
 	}
 }
 
